@@ -726,7 +726,7 @@ def finding_probes(ctx):
         if 'time_spec' in f['witness']:
             term, _ = time_observe(f['witness']['time_spec'], ctx.rundir / 'time-finding', 0)
             tags = set(ctx.run_cases('finding-' + f['id'], IMPORTS + ' C13.Time', 'tcase', [term], 'time_verdict')[0])
-            if {f['expect_tag'], f['guard_tag']} <= tags and 31 not in tags:
+            if {f['expect_tag'], f['guard_tag']} <= tags and not (tags & set(TIME_CORR)):
                 ctx.known(f['id'])
             else:
                 ctx.notes.append(f"finding_not_reproduced {f['id']} (tags {sorted(tags)})")
@@ -793,9 +793,13 @@ def run_cycles(ctx, n):
 
 
 # ------------------------------------------------------------------ TIME / DATE translation
-TIME_TAGS = {31: 'translate_nmtran_time differs from the model', 34: 'translated TIME differs from hours since the first record by the calendar'}
+TIME_TAGS = {31: 'translate_nmtran_time differs from the binary64 model (exact comparison of the doubles)',
+             36: 'translate_nmtran_time differs from the exact-rational model by more than 1e-9 h',
+             34: 'translated TIME differs from hours since the first record by the calendar',
+             35: 'translated TIME is not within 4 ulp of the calendar difference'}
 TIME_GUARDS = {221: ('g_three_parts', 'finding', 'C13-DATE-TWO-PART'), 222: ('g_has_date', 'finding', 'C13-TIME-CLOCK-NO-DATE'),
-               223: ('g_no_daynum', 'finding', 'C13-DATE-DAYNUM-ABSOLUTE')}
+               223: ('g_no_daynum', 'finding', 'C13-DATE-DAYNUM-ABSOLUTE'), 225: ('g_split_exact', 'finding', 'C13-TIME-SPLIT-TRUNCATION')}
+TIME_CORR = (31, 36)
 
 
 def gen_time_spec(rng, malformed=False):
@@ -901,26 +905,31 @@ def run_times(ctx, n, nm):
                             'rule': 'ID/TIME/DATE files: DATE, DAT1, DAT2, DAT3 (dropped or not) with 3-part dates (/, -, . separators, '
                                     '2- and 4-digit years, leap days, year ends), day numbers, two-part dates, no date column; hh:mm, h:m, '
                                     'decimal hours; malformed stream (invalid dates, hh:mm:ss, 24:00); translate_nmtran_time compared with '
-                                    'the model (1e-9 h) and with the calendar specification'}
+                                    'the binary64 model (exact equality of the doubles), the exact-rational model (1e-9 h) and the calendar specification'}
     return len(kept)
 
 
 def classify_time(ctx, spec, tags):
     tags = set(tags)
-    gfalse = [t for t in tags if t in TIME_GUARDS]
-    if 34 in tags:
-        open_f = [TIME_GUARDS[t][2] for t in gfalse if ctx.open_finding(TIME_GUARDS[t][2])]
-        if 31 not in tags and open_f:
+    corr = [t for t in tags if t in TIME_CORR]
+    status = 'ok'
+    for prop, guards in ((34, (221, 222, 223)), (35, (225,))):
+        if prop not in tags:
+            continue
+        open_f = [TIME_GUARDS[t][2] for t in guards if t in tags and ctx.open_finding(TIME_GUARDS[t][2])]
+        if not corr and open_f:
             for fid in open_f:
                 ctx.coverage.setdefault('known_hits', {}).setdefault(fid, 0)
                 ctx.coverage['known_hits'][fid] += 1
-            return 'known'
-        ctx.violation(TIME_TAGS[34], {'time_spec': spec, 'tags': sorted(tags)})
-        return 'violation'
-    if 31 in tags:
-        ctx.broken.append('correspondence C13 translate_nmtran_time model vs implementation on ' + json.dumps(spec)[:400])
+            status = 'known'
+        else:
+            ctx.violation(TIME_TAGS[prop], {'time_spec': spec, 'tags': sorted(tags)})
+            return 'violation'
+    if corr:
+        ctx.broken.append('correspondence C13 translate_nmtran_time model vs implementation (' + ', '.join(TIME_TAGS[t] for t in corr)
+                          + ') on ' + json.dumps(spec)[:400])
         return 'broken'
-    return 'ok'
+    return status
 
 
 # ------------------------------------------------------------------ $PK control streams: filter_observations
@@ -998,7 +1007,7 @@ def run_pk(ctx, n):
         kept.append(spec)
         infos.append(info)
     verdicts = ctx.run_cases('pk', IMPORTS + ' C13.Pk', 'case', terms, 'pk_verdict', shard=100) if terms else []
-    stats, removed = {}, 0
+    stats = {}
     for spec, tags in zip(kept, verdicts):
         st = classify(ctx, spec, tags)
         stats[st] = stats.get(st, 0) + 1
@@ -1008,6 +1017,68 @@ def run_pk(ctx, n):
     ctx.coverage['pk'] = {'cases': len(kept), 'status': stats, 'outcomes': outcomes,
                           'rule': '$PK control streams read through parse_datainfo + parse_dataset (read_nonmem_dataset + filter_observations): '
                                   'MDV / EVID / AMT (synonym) label columns present, absent or dropped; compared with read_model_pk and spec_read_pk'}
+    return len(kept)
+
+
+# ------------------------------------------------------------------ raw mode (Model.read_raw_dataset)
+def raw_table_term(df):
+    cols = []
+    for j, name in enumerate(df.columns):
+        label = name if isinstance(name, str) else ''            # surplus columns have no name
+        cols.append(ct.pair(s_term(label), ct.lst([cell_term(v) for v in df.iloc[:, j].tolist()])))
+    return f'(Ok {ct.lst(cols)})'
+
+
+def observe_raw(spec, datadir, idx):
+    from pharmpy.model.external.nonmem.nmtran_parser import NMTranParser
+    from pharmpy.model.external.nonmem.parsing import parse_datainfo, parse_dataset
+    p = Path(datadir) / f'raw{idx}.csv'
+    for ch in spec['text']:
+        if ord(ch) > 255:
+            raise Skip('non latin-1 text')
+    p.write_bytes(spec['text'].encode('latin-1'))
+    code = control_stream(spec, p)
+    in_term, info = input_term_from_code(code, spec['text'])
+    with warnings.catch_warnings():
+        warnings.simplefilter('ignore')
+        try:
+            cs = NMTranParser().parse(code)
+            di = parse_datainfo(cs, None)
+            df = parse_dataset(di, cs, raw=True)
+            obs = raw_table_term(df)
+            info['outcome'] = 'ok'
+        except Skip:
+            raise
+        except Exception as e:
+            obs = err_term(e)
+            info['outcome'] = type(e).__name__
+    return f'(mkCase {in_term}\n  {obs})', info
+
+
+def run_raw(ctx, n, nm):
+    datadir = ctx.rundir / 'raw'
+    datadir.mkdir(exist_ok=True)
+    specs = [gen_spec(ctx.rng) for _ in range(n)] + [gen_spec(ctx.rng, malformed=True) for _ in range(nm)]
+    terms, kept, infos = [], [], []
+    for k, spec in enumerate(specs):
+        try:
+            term, info = observe_raw(spec, datadir, k)
+        except Skip:
+            continue
+        terms.append(term)
+        kept.append(spec)
+        infos.append(info)
+    verdicts = ctx.run_cases('raw', IMPORTS + ' C13.Raw', 'case', terms, 'raw_verdict', shard=100) if terms else []
+    stats = {}
+    for spec, tags in zip(kept, verdicts):
+        st = classify(ctx, spec, tags)
+        stats[st] = stats.get(st, 0) + 1
+    outcomes = {}
+    for i in infos:
+        outcomes[i['outcome']] = outcomes.get(i['outcome'], 0) + 1
+    ctx.coverage['raw'] = {'cases': len(kept), 'status': stats, 'outcomes': outcomes,
+                           'rule': 'the generated data files of the main tie read with parse_dataset(raw=True) (Model.read_raw_dataset), '
+                                   'compared with read_raw and spec_raw'}
     return len(kept)
 
 
@@ -1117,9 +1188,10 @@ def run(ctx):
         stats[st] = stats.get(st, 0) + 1
     ncyc = run_cycles(ctx, 90 if ctx.tier == 'quick' else 500)
     nenum = run_enumerations(ctx)
-    npk = run_pk(ctx, 150 if ctx.tier == 'quick' else 1000)
-    ntime = run_times(ctx, 140 if ctx.tier == 'quick' else 1200, 50 if ctx.tier == 'quick' else 400)
-    ctx.coverage['evaluations'] = len(kept) + ncyc + nenum + ntime + npk
+    nraw = run_raw(ctx, 100 if ctx.tier == 'quick' else 1200, 30 if ctx.tier == 'quick' else 300)
+    npk = run_pk(ctx, 100 if ctx.tier == 'quick' else 1000)
+    ntime = run_times(ctx, 110 if ctx.tier == 'quick' else 1200, 40 if ctx.tier == 'quick' else 400)
+    ctx.coverage['evaluations'] = len(kept) + ncyc + nenum + ntime + npk + nraw
     distinct = {json.dumps(s, sort_keys=True) for s, i in zip(kept, infos) if i.get('rows', 0) >= 1 and i['ncols'] >= 2}
     ctx.coverage['distinct_nontrivial'] = len(distinct)
     ctx.coverage['rule'] = ('data files generated from the documented lexical forms (number forms, delimiters, NULL items, '
@@ -1154,8 +1226,9 @@ def replay(ctx, rep):
         tags = ctx.run_cases('replay', IMPORTS + ' C13.Time', 'tcase', [term], 'time_verdict')[0]
         print('time spec', json.dumps(rep['time_spec']), info)
         print('tags', tags)
-        excused = 31 not in tags and any(t in TIME_GUARDS and ctx.open_finding(TIME_GUARDS[t][2]) for t in tags)
-        return 1 if (31 in tags or (34 in tags and not excused)) else 0
+        corr = set(tags) & set(TIME_CORR)
+        excused = not corr and any(t in TIME_GUARDS and ctx.open_finding(TIME_GUARDS[t][2]) for t in tags)
+        return 1 if (corr or ((34 in tags or 35 in tags) and not excused)) else 0
     if 'cycle_spec' in rep:
         term, readcase, info = cycle_observe(rep['cycle_spec'], ctx.rundir / 'cycle', 0)
         tags = ctx.run_cases('replay', IMPORTS, 'cycle_case', [term], 'cycle_verdict')[0]
